@@ -218,7 +218,8 @@ fn real_time_sanity(ctx: &Ctx, seed: u64) {
             let wall = t0.elapsed().as_secs_f64();
             ctx.count("real_time_runs", 1);
             if wall > 5.0 {
-                ctx.inconclusive(format!("real-time solve(20 ms) took {wall:.2} s on a loaded machine (result {})", res.short()));
+                // wall-clock observations are never a verdict (loaded machine): recorded only
+                ctx.note(&format!("real-time solve(20 ms) took {wall:.2} s (result {}); not judged", res.short()));
             }
             if res.is_path() {
                 ctx.violate("path-in-infeasible-world:goal-invalid:real-time", format!("{}", res.short()), json!({"kind":"c06-real","problem":problem.to_json(),"params":params.to_json()}));
